@@ -49,9 +49,12 @@ mod verif_search {
                 let p = b.pending();
                 let pad = rng.next() & ((1 << p) - 1);
                 b.put(pad, p);
-                let len = if rng.below(4) == 0 { 0 } else { rng.below(60) };
+                let len = match rng.below(8) { 0 => 0, 1 => 255, 2 => 256, _ => rng.below(60) };
                 b.put(len, 16); b.put(!len & 0xffff, 16);
-                for _ in 0..len { let c = (rng.below(4) + 97) as u8; b.put(c as u32, 8); text.push(c); }
+                // (now and then the first stored byte repeats the low byte of LEN: a reader that is off by one byte here
+                // would still find a consistent LEN/NLEN pair)
+                let echo = rng.below(2) == 0;
+                for i in 0..len { let c = if i == 0 && echo { (len & 0xff) as u8 } else { (rng.below(4) + 97) as u8 }; b.put(c as u32, 8); text.push(c); }
                 desc += &format!("[stored len={} pad={:#x}/{}]", len, pad, p);
                 continue;
             }
@@ -114,10 +117,12 @@ mod verif_search {
 
     fn hex(b: &[u8]) -> String { b.iter().map(|x| format!("{:02x}", x)).collect() }
 
-    fn check_one(stream: &[u8], text: &[u8]) -> Option<String> {
-        let contents = match parse_deflate(stream, 0) { Ok(c) => c, Err(e) => return Some(format!("well-formed stream rejected by parse_deflate: {}", e)) };
+    fn check_one(stream: &[u8], text: &[u8], c03: bool) -> Option<String> {
+        // C03 speaks about accepted streams only; for C07 a rejected well-formed stream is a failure to round-trip
+        let contents = match parse_deflate(stream, 0) { Ok(c) => c, Err(e) => return if c03 { None } else { Some(format!("well-formed stream rejected by parse_deflate: {}", e)) } };
         if contents.plain_text != text { return Some(format!("C03: plaintext differs from the encoded plaintext (got {} bytes, expected {})", contents.plain_text.len(), text.len())); }
         if contents.compressed_size != stream.len() { return Some(format!("C03: compressed_size {} != stream length {}", contents.compressed_size, stream.len())); }
+        if c03 { return None; }
         let mut w = DeflateWriter::new();
         for (i, blk) in contents.blocks.iter().enumerate() {
             if let Err(e) = w.encode_block(blk, i + 1 == contents.blocks.len()) { return Some(format!("encode_block failed: {}", e)); }
@@ -128,19 +133,97 @@ mod verif_search {
         None
     }
 
+    /// C02 on the real API: accept => recompress gives the consumed prefix; both verify settings agree; the bytes after
+    /// the stream do not matter
+    fn check_c02(stream: &[u8]) -> Option<String> {
+        use crate::preflate_container::{decompress_deflate_stream, recompress_deflate_stream};
+        let r0 = decompress_deflate_stream(stream, false, 0);
+        let r1 = decompress_deflate_stream(stream, true, 0);
+        match (&r0, &r1) {
+            (Ok(a), Ok(b)) => {
+                if a.plain_text != b.plain_text || a.prediction_corrections != b.prediction_corrections || a.compressed_size != b.compressed_size {
+                    return Some("C02: verify=false and verify=true return different results".into());
+                }
+            }
+            (Ok(_), Err(e)) => return Some(format!("C02: accepted with verify=false, rejected with verify=true: {}", e)),
+            (Err(e), Ok(_)) => return Some(format!("C02: rejected with verify=false, accepted with verify=true: {}", e)),
+            (Err(_), Err(_)) => return None,
+        }
+        let a = r0.unwrap();
+        if a.compressed_size > stream.len() { return Some("C02: compressed_size beyond the input".into()); }
+        match recompress_deflate_stream(&a.plain_text, &a.prediction_corrections) {
+            Err(e) => return Some(format!("C02: accepted stream cannot be reconstructed: {}", e)),
+            Ok(back) => if back[..] != stream[..a.compressed_size] { return Some(format!("C02: accepted stream was reconstructed differently: {}", hex(&back))); }
+        }
+        let mut longer = stream[..a.compressed_size].to_vec();
+        longer.extend_from_slice(&[0x5a, 0xff, 0x00, 0x13, 0x37]);
+        match decompress_deflate_stream(&longer, false, 0) {
+            Err(e) => return Some(format!("C02: result depends on the bytes after the stream (Err with a suffix): {}", e)),
+            Ok(c) => if c.plain_text != a.plain_text || c.prediction_corrections != a.prediction_corrections || c.compressed_size != a.compressed_size {
+                return Some("C02: result depends on the bytes after the stream".into());
+            }
+        }
+        None
+    }
+
+    /// C05 on the real API: arbitrary bytes end in Ok or Err (both verify settings), never in a panic; a single call that
+    /// takes longer than 20 s is reported as a suspected hang
+    fn check_c05(d: &[u8]) -> Option<String> {
+        use crate::preflate_container::decompress_deflate_stream;
+        for verify in [false, true] {
+            let dd = d.to_vec();
+            let t0 = std::time::Instant::now();
+            let r = std::panic::catch_unwind(move || decompress_deflate_stream(&dd, verify, 0).is_ok());
+            if r.is_err() { return Some(format!("C05: decompress_deflate_stream panicked (verify={})", verify)); }
+            if t0.elapsed().as_secs() > 20 { return Some(format!("C05: one call took {} s (verify={})", t0.elapsed().as_secs(), verify)); }
+        }
+        None
+    }
+    fn search_c05(seed: u64) {
+        let mut rng = Rng(seed.wrapping_mul(0x9E3779B97F4A7C15) ^ 0xC05);
+        let mut n = 0u64;
+        let mut fail = |d: &[u8], msg: String| -> ! { println!("FAILING-INPUT property=c05 what={:?} stream={}", msg, hex(d)); panic!("search: {}", msg); };
+        // every input of at most two bytes; every three-byte input behind the block headers that reach the decoders
+        for a in 0..=255u32 { let d = [a as u8]; n += 1; if let Some(m) = check_c05(&d) { fail(&d, m); } }
+        for a in 0..=255u32 { for b in 0..=255u32 { let d = [a as u8, b as u8]; n += 1; if let Some(m) = check_c05(&d) { fail(&d, m); } } }
+        for a in [0x4bu32, 0x4a, 0x03, 0x02, 0x05, 0x04, 0x01, 0x00, 0xed, 0xec] { for b in 0..=255u32 { for c in 0..=255u32 {
+            let d = [a as u8, b as u8, c as u8]; n += 1; if let Some(m) = check_c05(&d) { fail(&d, m); } } } }
+        if let Some(m) = check_c05(&[]) { fail(&[], m); }
+        // well-formed streams: every truncation, single-byte corruptions, noise tails
+        for _ in 0..400 {
+            let (stream, _text, _desc) = gen_stream(&mut rng);
+            for cut in 0..stream.len() { n += 1; if let Some(m) = check_c05(&stream[..cut]) { fail(&stream[..cut], m); } }
+            for _ in 0..24 {
+                let mut d = stream.clone();
+                let i = rng.below(d.len() as u32) as usize;
+                d[i] ^= 1 << rng.below(8);
+                if rng.below(3) == 0 { let j = rng.below(d.len() as u32) as usize; d[j] = rng.next() as u8; }
+                n += 1; if let Some(m) = check_c05(&d) { fail(&d, m); }
+            }
+        }
+        for len in 0..96u32 { for _ in 0..40 { let d: Vec<u8> = (0..len).map(|_| rng.next() as u8).collect(); n += 1; if let Some(m) = check_c05(&d) { fail(&d, m); } } }
+        println!("SEARCH-DONE property=c05 no failing input in {} inputs", n);
+    }
+
     #[test]
     fn verif_search() {
+        if std::env::var("VERIF_SEARCH").map(|v| v == "c05").unwrap_or(false) {
+            let seed: u64 = std::env::var("VERIF_SEED").ok().and_then(|s| s.parse().ok()).unwrap_or(1);
+            return search_c05(seed);
+        }
+        let c02 = std::env::var("VERIF_SEARCH").map(|v| v == "c02").unwrap_or(false);
+        let c03 = std::env::var("VERIF_SEARCH").map(|v| v == "c03").unwrap_or(false);
         let seed: u64 = std::env::var("VERIF_SEED").ok().and_then(|s| s.parse().ok()).unwrap_or(1);
         let mut rng = Rng(seed.wrapping_mul(0x9E3779B97F4A7C15) ^ 0xC07);
-        let n = 6000;
+        let n = if c02 { 2500 } else { 6000 };
         for k in 0..n {
             let (stream, text, desc) = gen_stream(&mut rng);
             let (s2, t2) = (stream.clone(), text.clone());
-            let r = std::panic::catch_unwind(move || check_one(&s2, &t2));
+            let r = std::panic::catch_unwind(move || if c02 { check_c02(&s2) } else { check_one(&s2, &t2, c03) });
             let msg = match r { Ok(None) => continue, Ok(Some(m)) => m, Err(_) => "panic".to_string() };
-            println!("FAILING-INPUT property=c07 what={:?} stream={} blocks={} case={}", msg, hex(&stream), desc, k);
-            panic!("c07: {}", msg);
+            println!("FAILING-INPUT property={} what={:?} stream={} blocks={} case={}", if c02 { "c02" } else if c03 { "c03" } else { "c07" }, msg, hex(&stream), desc, k);
+            panic!("search: {}", msg);
         }
-        println!("SEARCH-DONE property=c07 no failing input in {} generated streams", n);
+        println!("SEARCH-DONE property={} no failing input in {} generated streams", if c02 { "c02" } else if c03 { "c03" } else { "c07" }, n);
     }
 }
